@@ -11,13 +11,13 @@ MIN_NONTRIVIAL = {"quick": 2000, "thorough": 30000}
 BLOB = (300, 1200)
 RULE = ("Hypothesis byte-backed generator: a line-target command (write handler, 0-3 variables, implicit-write variants, read/test handlers, "
         "description) and an event-target command (read/test handlers, variables) in a shared or separate buffer layout; command capacity c "
-        "in 6-64 or placed -2..+2 around the length of the command's READ/TEST text; 1-4 lines: WRITE lines whose argument bytes range over "
+        "in 6-520 or placed -2..+2 around the length of the command's READ/TEST text; 1-4 lines: WRITE lines whose argument bytes range over "
         "all values except LF (NUL, CR, high bytes, mixed case) with length from {0,1,c-3..c+2,2c,3c} or uniform, READ and TEST lines; "
         "READ/TEST events triggered at generated steps so handlers run from both state machines. Oracle: write handler data/size/NUL/args_num, "
         "read/test handler text/size/capacity/pointer, and for arguments of length >= capacity: ERROR with no handler, no variable callback, "
         "no variable change. Non-trivial = an argument of length >= c-2, or containing CR/NUL/high bytes, or a read/test handler that saw a text "
         "within 2 bytes of its capacity; distinct by case hash.")
-ASSUMPTIONS = ["handlers return OK / DATA_OK without editing the buffer (return-code behaviour is C10's)",
+ASSUMPTIONS = ["handlers return OK / DATA_OK, or NEXT / DATA_NEXT after editing the buffer or the reported length (what the next invocation sees must be fresh; the emitted units are C10's)",
                "lines never address the event-target command, so the text an event handler sees does not depend on timing",
                "the newline inside an unsolicited TEST text (before the description) may be LF or CRLF (it mirrors the command line in progress)",
                "arguments beginning with '?' follow the documented TEST exception (cat.h:174-178)"]
@@ -53,6 +53,10 @@ def gen(d, tier):
     for k in "rt":
         if k in h and d.below(2):
             tgt["scripts"]["0" + k] = [S.mk_step(S.DATA_OK)]
+            if d.below(2):
+                # the handler edits the buffer / the reported length and asks for another round: the next invocation must
+                # again see the freshly formatted text
+                tgt["scripts"]["0" + k] = [S.mk_step(d.pick([S.NEXT, S.DATA_NEXT]), d.pick([1, 2, 3, 4]), d.pick([b"junk", b"x", b"0123456789"])) for _ in range(d.rng(1, 2))] + [S.mk_step(S.DATA_OK)]
     evs = [G.g_var(d, max_buf=8, fails=False, callbacks=False) for _ in range(d.weighted([(2, 0), (3, 1), (2, 2)]))]
     ev = S.mk_cmd(d.pick([b"#E", b"#EVT", b"%e"]), "".join(k for k in "rt" if d.chance(3, 4)), evs,
                   desc=(b"event help" if d.unlikely(1, 4) else None))
@@ -72,7 +76,7 @@ def gen(d, tier):
     if lens and d.chance(1, 2):
         cc = max(6, d.pick(lens) + 1 + d.pick([0, -1, 1, -2, 2]))
     else:
-        cc = d.pick([6, 7, 8, 10, 12, 16, 24, 32, 48, 64])
+        cc = d.pick([6, 7, 8, 10, 12, 16, 24, 32, 48, 64, 64, 128, 255, 256, 257, 300, 520])
     shared = d.below(2) == 0
     if shared:
         bufsz, ubufsz = 2 * cc + d.below(2), 0
@@ -97,7 +101,8 @@ def gen(d, tier):
                 if d.below(3) == 0:
                     a += arg_bytes(d, d.pick([1, 2, cc]))
             else:
-                n = d.pick([0, 1, cc - 3, cc - 2, cc - 1, cc, cc + 1, cc + 2, 2 * cc, 3 * cc]) if d.chance(2, 3) else d.below(cc + 4)
+                n = d.pick([0, 1, cc - 3, cc - 2, cc - 1, cc, cc + 1, cc + 2, 2 * cc, 3 * cc, 254, 255, 256, 257, 511, 512]) if d.chance(2, 3) else d.below(cc + 4)
+                n = min(n, 3 * cc + 8)
                 a = arg_bytes(d, max(0, n))
             ln = at + nm + (b"" if implicit and d.chance(2, 3) else b"=") + a
         inp += ln + (b"\r\n" if d.below(3) == 0 else b"\n")
